@@ -140,6 +140,9 @@ pub enum TraceEvent {
     Executed { ack: usize, kind: String, status: St, begin: u64, end: u64, thread: u64 },
     Drained { ack: usize, stamp: u64 },
     Sent { ack: usize, kind: String, before: u64, after: u64 },
+    Swept { id: u64, stamp: u64 },
+    Admission { id: u64, weight: i64, space_left: i64 },
+    Evicted { incoming: u64, victim: u64 },
 }
 
 pub struct ConcRun {
@@ -555,6 +558,9 @@ pub fn run_conc_case(case: &ConcCase, stall_window: Duration) -> ConcRun {
             Event::Executed { ack, kind, status, begin, end, thread } => history.trace.push(TraceEvent::Executed { ack, kind, status: St::from(status), begin, end, thread }),
             Event::Drained { ack, stamp } => history.trace.push(TraceEvent::Drained { ack, stamp }),
             Event::Sent { ack, kind, before, after } => history.trace.push(TraceEvent::Sent { ack, kind, before, after }),
+            Event::Swept { id, stamp } => history.trace.push(TraceEvent::Swept { id, stamp }),
+            Event::AdmissionBegin { id, weight, space_left, .. } => history.trace.push(TraceEvent::Admission { id, weight, space_left }),
+            Event::AdmissionStep { id, victim: Some(victim), evicted: true, .. } => history.trace.push(TraceEvent::Evicted { incoming: id, victim: victim.id }),
             _ => {}
         }
     }
@@ -601,6 +607,56 @@ pub fn f10_witness() -> Option<Failure> {
     let value = cache.get(&key);
     if deadline == Some(std::time::UNIX_EPOCH + Duration::from_nanos(start + 4_000_000_000)) && value.is_none() {
         failure = Some(Failure::new("C10", "C10/conc/index-race", format!("two overlapping put_or_update calls set the time-to-live of key {} to 1 s and then 4 s (deadline shown by get_ref: {:?}); with the clock at 3 s a sweep removed the key: get() = None although its deadline lies 1 s in the future", key, deadline)).with_also(vec!["C09".to_string()]));
+    }
+    cache.shutdown();
+    failure
+}
+
+/// Directed scenario (finding F11, fixed): the sweeper is delayed between removing the weight entry of an expired key id
+/// and removing the store entry (schedule point `CacheWeightDeleteAfterRemove`). Meanwhile a client removes the key's TTL
+/// in place (so the worker's delete does not wait for the sweeper's shard lock), deletes the key and puts it again. The
+/// sweeper's removal of the *old* incarnation must not remove the new one. Returns a failure if the new incarnation is lost.
+pub fn sweep_vs_reput_scenario(delay_ms: u64) -> Option<Failure> {
+    let cfg = Cfg { counters: 100, capacity: 16, max_weight: 4000, shards: 2, cmd_buf: 8, pool: 1, buf: 4, tick_us: 300, hash: HashMode::Identity, weight_mode: WeightMode::Table(vec![8]), start_ns: 0 };
+    let inst = Instance::new();
+    let start = BASE_SECS * 1_000_000_000;
+    let clock = HClock::new(start);
+    let cache = Arc::new(crate::seq::build_cache(&cfg, &clock, &inst));
+    verif::install(None);
+    inst.set_handler(Some(Arc::new(move |site: Site| { if site == Site::CacheWeightDeleteAfterRemove { std::thread::sleep(Duration::from_millis(delay_ms)); } })));
+    let key = 1u64;
+    let ack = cache.put_with_weight_and_ttl(key, 100, 8, Duration::from_secs(1)).ok()?;
+    await_ack(&ack, &inst).ok()?;
+    // expire it: the sweeper (shard of second 1) removes the weight entry, then is delayed before touching the store
+    clock.set(start + 1_500_000_000);
+    let hit = |inst: &Instance| inst.site_hits[Site::CacheWeightDeleteAfterRemove as usize].load(Ordering::Relaxed);
+    wait_for(&inst, || if hit(&inst) >= 1 { Some(()) } else { None }).ok()?;
+    // a client removes the TTL in place: the store entry changes at once, its index update waits for the sweeper
+    let upsert_cache = cache.clone();
+    let upsert_inst = inst.clone();
+    let upserter = std::thread::spawn(move || {
+        if let Ok(ack) = upsert_cache.put_or_update(PutOrUpdateRequestBuilder::new(key).value(101).weight(8).remove_time_to_live().build()) { let _ = await_ack(&ack, &upsert_inst); }
+    });
+    let peeked = wait_for(&inst, || match cache.verif_peek(&key) { Some((_, None, _)) => Some(true), None => Some(false), _ => None }).ok()?;
+    let mut failure = None;
+    if peeked {
+        let ack = cache.delete(key).ok()?;
+        let deleted = await_ack(&ack, &inst).ok().map(St::from);
+        let ack = cache.put_with_weight(key, 102, 8).ok()?;
+        let put = await_ack(&ack, &inst).ok().map(St::from);
+        let _ = upserter.join();
+        // let the delayed sweep finish, then one more complete sweep
+        let started = inst.sweeps_started.load(Ordering::Acquire);
+        let _ = wait_for(&inst, || if inst.sweeps_completed.load(Ordering::Acquire) >= started + 2 { Some(()) } else { None });
+        inst.set_handler(None);
+        let value = cache.get(&key);
+        let used = cache.total_weight_used();
+        if deleted == Some(St::Accepted) && put == Some(St::Accepted) && (value != Some(102) || used != 8) {
+            failure = Some(Failure::new("C10", "C10/conc/sweep-removes-new-incarnation", format!("key {} expired; while the sweeper was between releasing its weight and removing its store entry the key was deleted (acknowledged {:?}) and put again without a time-to-live (acknowledged {:?}); afterwards get() = {:x?} (expected Some(0x66)) and total_weight_used() = {} (expected 8): the sweep of the old incarnation removed the new one", key, deleted, put, value, used)).with_also(vec!["C03".to_string(), "C05".to_string()]));
+        }
+    } else {
+        let _ = upserter.join();
+        inst.set_handler(None);
     }
     cache.shutdown();
     failure
